@@ -31,7 +31,7 @@ Variable a : farch.
 Variables wgp wvec : list Z.
 Variable vs0 : list fvar.
 Variable st0 : state.
-Hypothesis Hv0 : forall i v0, nth_error vs0 i = Some v0 -> v0_ok wgp wvec v0.
+Hypothesis Hv0 : forall i v0, nth_error vs0 i = Some v0 -> v0_ok a wgp wvec v0.
 Hypothesis Hout0 : fout_inj vs0.
 
 Local Notation finv' := (finv wgp wvec vs0 st0).
@@ -41,8 +41,8 @@ Lemma active_shape vars emit i v g c : finv' vars emit -> stk_done vars -> nth_e
   f_done v = false -> f_cur v = Reg g c -> exists o, f_out v = Reg g o.
 Proof.
   intros Hinv Hsd Hv Hd Ec. destruct (f_out v) as [g' o | oa oo] eqn:Eo.
-  - destruct (finv_cur_reg _ _ _ _ Hv0 _ _ _ _ _ _ Hinv Hv Ec) as [G1 _].
-    destruct (finv_out_reg _ _ _ _ Hv0 _ _ _ _ _ _ Hinv Hv Eo) as [G2 _]. exists o. congruence.
+  - destruct (finv_cur_reg _ _ _ _ _ Hv0 _ _ _ _ _ _ Hinv Hv Ec) as [G1 _].
+    destruct (finv_out_reg _ _ _ _ _ Hv0 _ _ _ _ _ _ Hinv Hv Eo) as [G2 _]. exists o. congruence.
   - assert (f_done v = true) by (apply (Hsd i v Hv); rewrite Eo; reflexivity). congruence.
 Qed.
 
@@ -51,8 +51,8 @@ Lemma falt_not_done vars emit i j v alt : finv' vars emit ->
   nth_error vars i = Some v -> nth_error vars j = Some alt -> f_cur alt = f_out v -> f_cur v <> f_out v -> f_done alt = false.
 Proof.
   intros Hinv Hv Ha Eca Hne. destruct (f_done alt) eqn:Hd; [| reflexivity]. exfalso.
-  pose proof (finv_done_cur _ _ _ _ Hv0 _ _ _ _ Hinv Ha Hd) as E.
-  assert (j = i) by (apply (finv_out_inj _ _ _ _ Hv0 Hout0 _ _ Hinv j i alt v Ha Hv); congruence). subst j.
+  pose proof (finv_done_cur _ _ _ _ _ Hv0 _ _ _ _ Hinv Ha Hd) as E.
+  assert (j = i) by (apply (finv_out_inj _ _ _ _ _ Hv0 Hout0 _ _ Hinv j i alt v Ha Hv); congruence). subst j.
   assert (alt = v) by congruence. subst alt. congruence.
 Qed.
 
@@ -73,7 +73,7 @@ Proof.
   intros Hinv Hsd Hb i v Hv Hd Hr.
   set (nd := filter activeb vars).
   assert (Hnd : NoDup (map f_out nd)).
-  { apply NoDup_map_filter_loc. apply inj_NoDup_loc. exact (finv_out_inj _ _ _ _ Hv0 Hout0 _ _ Hinv). }
+  { apply NoDup_map_filter_loc. apply inj_NoDup_loc. exact (finv_out_inj _ _ _ _ _ Hv0 Hout0 _ _ Hinv). }
   assert (Hincl : incl (map f_out nd) (map f_cur nd)).
   { intros x Hx. apply in_map_iff in Hx. destruct Hx as [u [Eu Hu]]. apply filter_In in Hu. destruct Hu as [Hu Hua].
     unfold activeb in Hua. apply andb_prop in Hua. destruct Hua as [Hud Hur]. apply negb_true_iff in Hud.
@@ -246,7 +246,7 @@ Hypothesis Hspare : forall g, (g = 0 \/ g = 1) -> grp_swap a g = false ->
 
 Lemma out_not_spare vs emit k u l : finv' vs emit -> nth_error vs k = Some u -> (forall v0, In v0 vs0 -> f_out v0 <> l) -> f_out u <> l.
 Proof.
-  intros Hinv Hk Hs. destruct (finv_orig _ _ _ _ Hv0 _ _ _ _ Hinv Hk) as [u0 [H0 [_ [E _]]]]. rewrite E.
+  intros Hinv Hk Hs. destruct (finv_orig _ _ _ _ _ Hv0 _ _ _ _ Hinv Hk) as [u0 [H0 [_ [E _]]]]. rewrite E.
   apply Hs. eapply nth_error_In; eassumption.
 Qed.
 
@@ -266,15 +266,15 @@ Proof.
     { apply (falt_not_done _ _ _ _ _ _ Hinv Hv Ha); [congruence|]. rewrite Ec, Eo. congruence. }
     destruct Hor as [Hor | [Hsw Hnone]].
     + rewrite Had in Hor. cbn in Hor. rewrite orb_true_r in Hor. discriminate.
-    + destruct (finv_cur_reg _ _ _ _ Hv0 _ _ _ _ _ _ Hinv Hv Ec) as [G1 _].
+    + destruct (finv_cur_reg _ _ _ _ _ Hv0 _ _ _ _ _ _ Hinv Hv Ec) as [G1 _].
       assert (Hg : g = 0 \/ g = 1) by (unfold vgrp in G1; destruct (f_int v); lia).
       assert (Hex : exists v0 o', In v0 vs0 /\ f_out v0 = Reg g o').
-      { destruct (finv_orig _ _ _ _ Hv0 _ _ _ _ Hinv Hv) as [v0 [H0 [_ [E _]]]]. exists v0, o.
+      { destruct (finv_orig _ _ _ _ _ Hv0 _ _ _ _ Hinv Hv) as [v0 [H0 [_ [E _]]]]. exists v0, o.
         split; [eapply nth_error_In; eassumption | congruence]. }
       destruct (Hspare g Hg Hsw Hex) as [r [Hr Hro]].
       pose proof (fscratch_none wgp wvec vs g r Hnone Hr) as Has. apply fassigned_true in Has.
       destruct Has as [k [u [Hk Eu]]]. destruct (f_done u) eqn:Hud.
-      * apply (out_not_spare _ _ _ _ _ Hinv Hk Hro). rewrite <- (finv_done_cur _ _ _ _ Hv0 _ _ _ _ Hinv Hk Hud). assumption.
+      * apply (out_not_spare _ _ _ _ _ Hinv Hk Hro). rewrite <- (finv_done_cur _ _ _ _ _ Hv0 _ _ _ _ Hinv Hk Hud). assumption.
       * destruct (fblocked_cur_is_out _ _ Hinv Hsd (Hb eq_refl) k u Hk Hud) as [k' [u' [Hk' [_ [_ Eu']]]]].
         { rewrite Eu. reflexivity. }
         apply (out_not_spare _ _ _ _ _ Hinv Hk' Hro). congruence.
@@ -350,15 +350,15 @@ End Phase1Total.
      (ii) every register group without an exchange instruction, if some variable is bound for a register of the group, has a
           work register that is not a destination *)
 
-Theorem fsolve_no_error : forall a wgp wvec vs0, fwf_inputb wgp wvec vs0 = true ->
+Theorem fsolve_no_error : forall a wgp wvec vs0, fwf_inputb wgp wvec vs0 = true -> farch_okb a vs0 = true ->
   ((exists v, In v vs0 /\ is_regl (f_cur v) = false /\ is_regl (f_out v) = false) ->
    exists r, In r wgp /\ ~ In (Reg 0 r) (map f_cur vs0)) ->
   (forall g, (g = 0 \/ g = 1) -> grp_swap a g = false -> (exists v o, In v vs0 /\ f_out v = Reg g o) ->
    exists r, In r (work_of wgp wvec g) /\ ~ In (Reg g r) (map f_out vs0)) ->
   fsolve a wgp wvec vs0 <> SErr.
 Proof.
-  intros a wgp wvec vs0 Hwf H1 H2. apply fwf_inputb_sound in Hwf.
-  pose proof (fwf_finv wgp wvec vs0 (fun _ => 0) Hwf) as Hinv. destruct Hwf as [Hok [_ [Ho _]]].
+  intros a wgp wvec vs0 Hwf Har H1 H2. apply (fwf_inputb_sound a) in Hwf; [| exact Har].
+  pose proof (fwf_finv a wgp wvec vs0 (fun _ => 0) Hwf) as Hinv. destruct Hwf as [Hok [_ [Ho _]]].
   unfold fsolve.
   destruct (stk_phase a wgp wvec vs0) as [[vs1 em1] |] eqn:E1.
   - destruct (stk_phase_ok a wgp wvec vs0 (fun _ => 0) Hok Ho _ _ Hinv E1) as [Hinv1 Hsd1].
@@ -497,7 +497,7 @@ Variable a : farch.
 Variables wgp wvec : list Z.
 Variable vs0 : list fvar.
 Variable st0 : state.
-Hypothesis Hv0 : forall i v0, nth_error vs0 i = Some v0 -> v0_ok wgp wvec v0.
+Hypothesis Hv0 : forall i v0, nth_error vs0 i = Some v0 -> v0_ok a wgp wvec v0.
 Hypothesis Hout0 : fout_inj vs0.
 
 Local Notation finv' := (finv wgp wvec vs0 st0).
@@ -531,7 +531,7 @@ Lemma blocked_no_FE vars emit : finv' vars emit -> stk_done vars -> all_blocked 
 Proof.
   intros Hinv Hsd Hb k HFE. induction HFE as [k u Hu Hud Hur Hfree | k u j alt Hu Hud Hur Hj Hjr Eca HFj IH]; [| assumption].
   destruct (f_cur u) as [g c |] eqn:Ec; [| discriminate].
-  destruct (active_shape wgp wvec vs0 st0 Hv0 _ _ _ _ _ _ Hinv Hsd Hu Hud Ec) as [o Eo].
+  destruct (active_shape a wgp wvec vs0 st0 Hv0 _ _ _ _ _ _ Hinv Hsd Hu Hud Ec) as [o Eo].
   destruct (Hb k u g c o Hu Hud Ec Eo) as [B1 _]. rewrite Eo in Hfree. congruence.
 Qed.
 
@@ -560,8 +560,8 @@ Proof.
     + exact (fassigned_false _ _ _ _ Hfree Hk' Ew).
   - destruct (f_cur alt') as [g' o' |] eqn:Eca2; [| discriminate].
     assert (Eg : g' = g1).
-    { destruct (finv_cur_reg _ _ _ _ Hv0 _ _ _ _ _ _ Hinv Hu Ec1) as [G1 _].
-      destruct (finv_out_reg _ _ _ _ Hv0 _ _ _ _ g' o' Hinv Hu (eq_sym Eca')) as [G2 _]. congruence. }
+    { destruct (finv_cur_reg _ _ _ _ _ Hv0 _ _ _ _ _ _ Hinv Hu Ec1) as [G1 _].
+      destruct (finv_out_reg _ _ _ _ _ Hv0 _ _ _ _ g' o' Hinv Hu (eq_sym Eca')) as [G2 _]. congruence. }
     subst g'.
     assert (Hji : j' <> i) by (intros E; subst j'; assert (alt' = v) by congruence; subst alt'; congruence).
     assert (Hjj : j' <> j) by (intros E; subst j'; assert (alt' = alt) by congruence; subst alt'; congruence).
@@ -577,7 +577,7 @@ Lemma fstep_bounded s i s' m : fstep_spec a wgp wvec s i s' -> fpinv a wgp wvec 
   exists m', fbounded (fs_vars s') m' /\ (m' <= m)%nat /\ (fs_did s = false -> fs_did s' = true -> (m' < m)%nat).
 Proof.
   intros Hs [Hinv [Hsd Hblk]] Hb.
-  pose proof (finv_out_inj _ _ _ _ Hv0 Hout0 _ _ Hinv) as Hoi.
+  pose proof (finv_out_inj _ _ _ _ _ Hv0 Hout0 _ _ Hinv) as Hoi.
   pose proof Hinv as [Hlen [Hci _]].
   destruct Hs as [Hn | v Hv Hd | v Hv Hd Hnr | v g c o Hv Hd Ec Eo Hc | v g c o j alt Hv Hd Ec Eo Has Hne Hf Ha Eca Hm Hsw
     | v g c o j alt sc Hv Hd Ec Eo Has Hne Hf Ha Eca Hm Hsw Hsc | v g c o j alt Hv Hd Ec Eo Has Hne Hf Ha Eca Hm Hsw Hsc
@@ -612,7 +612,7 @@ Proof.
     { unfold fwt, v'. cbn [fupd f_done f_cur f_out]. rewrite Hsw, Eo, loc_eqb_refl. destruct (negb (fneeds_ext v)); lia. }
     assert (fwt alt = 2%nat).
     { unfold fwt. rewrite Eca, Hsw.
-      rewrite (falt_not_done wgp wvec vs0 st0 Hv0 Hout0 _ _ _ _ _ _ Hinv Hv Ha) by congruence.
+      rewrite (falt_not_done a wgp wvec vs0 st0 Hv0 Hout0 _ _ _ _ _ _ Hinv Hv Ha) by congruence.
       destruct (loc_eqb_spec (Reg g o) (f_out alt)) as [E | E]; [| reflexivity]. exfalso. apply Hij.
       apply (Hoi i j v alt Hv Ha). congruence. }
     pose proof (fwt_le alt').
@@ -633,7 +633,7 @@ Proof.
     destruct (fscratch_some _ _ _ _ _ Hsc) as [_ Hsc'].
     assert (Eca' : f_cur alt = f_out v) by congruence.
     assert (Hne' : f_cur v <> f_out v) by (rewrite Ec, Eo; congruence).
-    pose proof (falt_not_done wgp wvec vs0 st0 Hv0 Hout0 _ _ _ _ _ _ Hinv Hv Ha Eca' Hne') as Had.
+    pose proof (falt_not_done a wgp wvec vs0 st0 Hv0 Hout0 _ _ _ _ _ _ Hinv Hv Ha Eca' Hne') as Had.
     assert (Hor : is_regl (f_out v) = true) by (rewrite Eo; reflexivity).
     pose proof (fwsum_fset fwt _ i v (fmoved v (Reg g sc) false) Hv) as E.
     assert (fwt (fmoved v (Reg g sc) false) = 1%nat). { unfold fwt. cbn [fmoved f_done f_cur]. rewrite Hsw. reflexivity. }
@@ -661,8 +661,8 @@ Proof.
       assert (Hki : k <> i). { intros E'. subst k. assert (u = v) by congruence. subst u. congruence. }
       assert (Hks : scrb u = true).
       { unfold scrb. rewrite Hkd. destruct (f_cur u) as [g1 c1 |] eqn:Ecu; [| discriminate].
-        destruct (finv_cur_reg _ _ _ _ Hv0 _ _ _ _ _ _ Hinv Hk Ecu) as [G1 _].
-        destruct (finv_out_reg _ _ _ _ Hv0 _ _ _ _ g c Hinv Hk ltac:(congruence)) as [G2 _].
+        destruct (finv_cur_reg _ _ _ _ _ Hv0 _ _ _ _ _ _ Hinv Hk Ecu) as [G1 _].
+        destruct (finv_out_reg _ _ _ _ _ Hv0 _ _ _ _ g c Hinv Hk ltac:(congruence)) as [G2 _].
         assert (Eg : g1 = g) by congruence. rewrite Eg, Hsw. reflexivity. }
       assert (HFk : FEf (fset (fs_vars s) i (fmoved v (Reg g sc) false)) k).
       { apply FEf_free with u; [rewrite nth_fset_ne by congruence; assumption | assumption | assumption |]. rewrite Eu.
@@ -738,10 +738,10 @@ Qed.
 
 End Measure.
 
-Theorem fsolve_terminates : forall a wgp wvec vs0, fwf_inputb wgp wvec vs0 = true -> fsolve a wgp wvec vs0 <> SFuel.
+Theorem fsolve_terminates : forall a wgp wvec vs0, fwf_inputb wgp wvec vs0 = true -> farch_okb a vs0 = true -> fsolve a wgp wvec vs0 <> SFuel.
 Proof.
-  intros a wgp wvec vs0 Hwf. apply fwf_inputb_sound in Hwf.
-  pose proof (fwf_finv wgp wvec vs0 (fun _ => 0) Hwf) as Hinv. destruct Hwf as [Hok [_ [Ho _]]].
+  intros a wgp wvec vs0 Hwf Har. apply (fwf_inputb_sound a) in Hwf; [| exact Har].
+  pose proof (fwf_finv a wgp wvec vs0 (fun _ => 0) Hwf) as Hinv. destruct Hwf as [Hok [_ [Ho _]]].
   unfold fsolve.
   destruct (stk_phase a wgp wvec vs0) as [[vs1 em1] |] eqn:E1; [| discriminate].
   destruct (stk_phase_ok a wgp wvec vs0 (fun _ => 0) Hok Ho _ _ Hinv E1) as [Hinv1 Hsd1].
@@ -754,38 +754,38 @@ Proof.
 Qed.
 
 (* under the conditions of fsolve_no_error the function produces a sequence (which is correct by fsolve_correct) *)
-Corollary fsolve_total : forall a wgp wvec vs0, fwf_inputb wgp wvec vs0 = true ->
+Corollary fsolve_total : forall a wgp wvec vs0, fwf_inputb wgp wvec vs0 = true -> farch_okb a vs0 = true ->
   ((exists v, In v vs0 /\ is_regl (f_cur v) = false /\ is_regl (f_out v) = false) ->
    exists r, In r wgp /\ ~ In (Reg 0 r) (map f_cur vs0)) ->
   (forall g, (g = 0 \/ g = 1) -> grp_swap a g = false -> (exists v o, In v vs0 /\ f_out v = Reg g o) ->
    exists r, In r (work_of wgp wvec g) /\ ~ In (Reg g r) (map f_out vs0)) ->
   exists ms, fsolve a wgp wvec vs0 = SOk ms.
 Proof.
-  intros a wgp wvec vs0 Hwf H1 H2. pose proof (fsolve_no_error a wgp wvec vs0 Hwf H1 H2).
-  pose proof (fsolve_terminates a wgp wvec vs0 Hwf).
+  intros a wgp wvec vs0 Hwf Har H1 H2. pose proof (fsolve_no_error a wgp wvec vs0 Hwf Har H1 H2).
+  pose proof (fsolve_terminates a wgp wvec vs0 Hwf Har).
   destruct (fsolve a wgp wvec vs0) as [ms | |]; [exists ms; reflexivity | congruence | congruence].
 Qed.
 
 (* x86-64: the GP group has xchg; only the vector group needs a spare register *)
-Corollary fsolve_x64_no_error : forall wgp wvec vs0, fwf_inputb wgp wvec vs0 = true ->
+Corollary fsolve_x64_no_error : forall wgp wvec vs0, fwf_inputb wgp wvec vs0 = true -> farch_okb FX64 vs0 = true ->
   ((exists v, In v vs0 /\ is_regl (f_cur v) = false /\ is_regl (f_out v) = false) ->
    exists r, In r wgp /\ ~ In (Reg 0 r) (map f_cur vs0)) ->
   ((exists v o, In v vs0 /\ f_out v = Reg 1 o) -> exists r, In r wvec /\ ~ In (Reg 1 r) (map f_out vs0)) ->
   fsolve FX64 wgp wvec vs0 <> SErr.
 Proof.
-  intros wgp wvec vs0 Hwf H1 H2. apply fsolve_no_error; try assumption.
+  intros wgp wvec vs0 Hwf Har H1 H2. apply fsolve_no_error; try assumption.
   intros g [Hg | Hg] Hsw Hex; subst g; [discriminate|]. apply H2. assumption.
 Qed.
 
 (* register-only assignments of integers on x86-64 never fail *)
-Corollary fsolve_x64_gp_regs_no_error : forall wgp wvec vs0, fwf_inputb wgp wvec vs0 = true ->
+Corollary fsolve_x64_gp_regs_no_error : forall wgp wvec vs0, fwf_inputb wgp wvec vs0 = true -> farch_okb FX64 vs0 = true ->
   (forall v, In v vs0 -> f_int v = true /\ is_regl (f_cur v) = true /\ is_regl (f_out v) = true) ->
   fsolve FX64 wgp wvec vs0 <> SErr.
 Proof.
-  intros wgp wvec vs0 Hwf Hall. apply fsolve_x64_no_error; try assumption.
+  intros wgp wvec vs0 Hwf Har Hall. apply fsolve_x64_no_error; try assumption.
   - intros [v [Hin [H1 _]]]. destruct (Hall v Hin) as [_ [H2 _]]. congruence.
   - intros [v [o [Hin Eo]]]. exfalso. destruct (Hall v Hin) as [Hi _].
-    apply fwf_inputb_sound in Hwf. destruct Hwf as [Hok _]. apply In_nth_error in Hin. destruct Hin as [i Hi'].
+    apply (fwf_inputb_sound FX64) in Hwf; [| exact Har]. destruct Hwf as [Hok _]. apply In_nth_error in Hin. destruct Hin as [i Hi'].
     destruct (Hok i v Hi') as [_ [_ [Hlo _]]]. unfold locp in Hlo. rewrite Eo in Hlo. destruct Hlo as [Hg _].
     unfold vgrp in Hg. rewrite Hi in Hg. discriminate.
 Qed.
@@ -839,3 +839,43 @@ Proof. vm_compute. split; reflexivity. Qed.
 
 Example ex_mixed_no_gp_scratch : fwf_inputb [2; 6; 7] ex_wvec ex_mixed = true /\ fsolve FX64 [2; 6; 7] ex_wvec ex_mixed = SErr.
 Proof. vm_compute. split; reflexivity. Qed.
+
+(* x86-64 with AVX: a YMM 2-cycle through the spare register, a YMM register -> stack store, a ZMM stack -> register load, a GP widening;
+   the same input is outside the fragment without AVX (farch_okb) *)
+Definition ex_avx : list fvar :=
+  [ finit (Reg 1 0) 32 false (Reg 1 1) 32 false false; finit (Reg 1 1) 32 false (Reg 1 0) 32 false false;
+    finit (Reg 1 2) 32 false (Mem 1 32) 32 false false; finit (Mem 0 0) 64 false (Reg 1 2) 64 false false;
+    finit (Reg 0 7) 1 true (Reg 0 6) 4 true true ].
+Example ex_avx_solved :
+  fwf_inputb [0;6;7] [0;1;2;3] ex_avx = true /\ farch_okb FX64A ex_avx = true /\ farch_okb FX64 ex_avx = false /\
+  fsolve FX64A [0;6;7] [0;1;2;3] ex_avx =
+  SOk [IExt (Mem 1 32) (Reg 1 2) EZ 256 256 256; IExt (Reg 1 3) (Reg 1 0) EZ 256 256 512; IExt (Reg 1 0) (Reg 1 1) EZ 256 256 512;
+       IExt (Reg 0 6) (Reg 0 7) ES 8 32 64; IExt (Reg 1 1) (Reg 1 3) EZ 256 256 512; IExt (Reg 1 2) (Mem 0 0) EZ 512 512 512].
+Proof. vm_compute. repeat split; reflexivity. Qed.
+Example ex_avx_valid :
+  match fsolve FX64A [0;6;7] [0;1;2;3] ex_avx with
+  | SOk m => validate (map fmove_of ex_avx) (map (Reg 0) [0;6;7] ++ map (Reg 1) [0;1;2;3] ++ [Mem 1 32]) m
+  | _ => false
+  end = true.
+Proof. vm_compute. reflexivity. Qed.
+
+(* 32-bit x86: int8 stack -> stack goes through the lowest free GP register; when that is ESI (no 8-bit view in 32-bit mode) the byte is
+   stored with a 32-bit MOV, with EAX available the store is 8 bits wide; an ECX / EDX swap with a pending zero extension *)
+Definition ex_x86 : list fvar :=
+  [ finit (Mem 0 4) 1 true (Mem 1 0) 1 true true; finit (Mem 0 8) 1 true (Mem 1 4) 4 true true;
+    finit (Reg 0 1) 2 false (Reg 0 2) 4 false true; finit (Reg 0 2) 4 true (Reg 0 1) 4 true true ].
+Example ex_x86_solved :
+  fwf_inputb [1;2;6;7] [0;1] ex_x86 = true /\ farch_okb FX86 ex_x86 = true /\
+  fsolve FX86 [1;2;6;7] [0;1] ex_x86 =
+  SOk [IExt (Reg 0 6) (Mem 0 4) EZ 8 32 64; IExt (Mem 1 0) (Reg 0 6) EZ 32 32 32; IExt (Reg 0 6) (Mem 0 8) ES 8 32 64;
+       IExt (Mem 1 4) (Reg 0 6) EZ 32 32 32; IXchg (Reg 0 2) (Reg 0 1) 32 64; IExt (Reg 0 2) (Reg 0 2) EZ 16 32 64] /\
+  fsolve FX86 [0;1;2;6;7] [0;1] ex_x86 =
+  SOk [IExt (Reg 0 0) (Mem 0 4) EZ 8 32 64; IExt (Mem 1 0) (Reg 0 0) EZ 8 8 8; IExt (Reg 0 0) (Mem 0 8) ES 8 32 64;
+       IExt (Mem 1 4) (Reg 0 0) EZ 32 32 32; IXchg (Reg 0 2) (Reg 0 1) 32 64; IExt (Reg 0 2) (Reg 0 2) EZ 16 32 64].
+Proof. vm_compute. repeat split; reflexivity. Qed.
+Example ex_x86_valid :
+  match fsolve FX86 [1;2;6;7] [0;1] ex_x86 with
+  | SOk m => validate (map fmove_of ex_x86) (map (Reg 0) [1;2;6;7] ++ [Mem 1 0; Mem 1 4]) m
+  | _ => false
+  end = true.
+Proof. vm_compute. reflexivity. Qed.
